@@ -34,6 +34,8 @@ type fileCase struct {
 	// (malformed as a whole: the previous mapping stays)
 	Tail  string `json:"tail,omitempty"`
 	Auto4 bool   `json:"auto4,omitempty"` // dual
+	// Empty (dual): "4" or "6" - that protocol's lease file is valid but lists nobody (comments only)
+	Empty string `json:"empty,omitempty"`
 	Auto6 bool   `json:"auto6,omitempty"`
 }
 
@@ -183,10 +185,10 @@ func genLeaseFile(rng *rand.Rand, v6 bool) string {
 func (fileEngine) Gen(rng *rand.Rand, tier string, i int) any {
 	c := &fileCase{Seed: rng.Int63(), V6: rng.Intn(2) == 0}
 	switch k := rng.Intn(20); {
-	case k < 16:
+	case k < 13:
 		c.Kind = "static"
 		c.Content = genLeaseFile(rng, c.V6)
-	case k < 19:
+	case k < 16:
 		c.Kind = "refresh"
 		c.Macs = 2 + rng.Intn(5)
 		n := 1 + rng.Intn(8)
@@ -209,6 +211,21 @@ func (fileEngine) Gen(rng *rand.Rand, tier string, i int) any {
 		for j := 0; j < n; j++ {
 			c.Steps = append(c.Steps, []string{"good4", "good6", "bad4", "bad6"}[rng.Intn(4)])
 		}
+		switch rng.Intn(4) {
+		case 0:
+			// one protocol's file lists nobody; the other instance refreshes
+			c.Empty = []string{"4", "6"}[rng.Intn(2)]
+			c.Auto4, c.Auto6 = true, true
+			c.Steps = append(c.Steps, "good6", "good4")
+		case 1:
+			// two instances of the plugin under ONE protocol, each with its own file and its own clients
+			c.Kind = "twin"
+			c.Macs = 4 + rng.Intn(3)
+			c.Steps = nil
+			for j := 0; j < 2+rng.Intn(4); j++ {
+				c.Steps = append(c.Steps, []string{"goodA", "goodB", "badA", "badB"}[rng.Intn(4)])
+			}
+		}
 	}
 	return c
 }
@@ -228,6 +245,8 @@ func (fileEngine) Run(ctx *fw.Ctx, cs any) {
 		runFileRefresh(ctx, c)
 	case "dual":
 		runFileDual(ctx, c)
+	case "twin":
+		runFileTwin(ctx, c)
 	}
 }
 
@@ -733,15 +752,22 @@ func runFileDual(ctx *fw.Ctx, c *fileCase) {
 		}
 		return []string{"{DIR}/" + name}
 	}
+	emptyFile := "# no static leases yet\n#" + strings.Repeat("p", fileLen-26) + "\n"
 	j := &ChainJob{HasV4: true, HasV6: true,
 		Files: map[string]string{"leases4.txt": versionFile(false, c.Macs, 11, ""), "leases6.txt": versionFile(true, c.Macs, 11, "")},
 		V4:    []PlugConf{{"file", args("leases4.txt", c.Auto4)}},
 		V6:    []PlugConf{{"file", args("leases6.txt", c.Auto6)}}}
+	if c.Empty == "4" {
+		j.Files["leases4.txt"] = emptyFile
+	} else if c.Empty == "6" {
+		j.Files["leases6.txt"] = emptyFile
+	}
 	type exp struct {
 		v6        bool
 		ver       int
 		mac       int
 		afterStep string
+		empty     bool
 	}
 	var exps []exp
 	xid := uint32(0)
@@ -750,6 +776,17 @@ func runFileDual(ctx *fw.Ctx, c *fileCase) {
 		for i := 0; i < c.Macs; i++ {
 			for _, v6 := range []bool{false, true} {
 				xid++
+				if (v6 && c.Empty == "6") || (!v6 && c.Empty == "4") {
+					// this instance's file lists nobody: the client gets nothing from it, whatever the other
+					// protocol's instance has loaded meanwhile
+					r := ChainReq{Hex: v4Req(xid, refreshMac(i)), RxIf: fakeIf, Peer: "10.9.9.9", Port: 67}
+					if v6 {
+						r = ChainReq{V6: true, Hex: v6Req(xid, refreshMac(i), true, 77), RxIf: fakeIf, Peer: "2001:db8:ffff::99", Port: 546}
+					}
+					j.Reqs = append(j.Reqs, r)
+					exps = append(exps, exp{v6: v6, mac: i, afterStep: after, empty: true})
+					continue
+				}
 				var r ChainReq
 				if v6 {
 					r = ChainReq{V6: true, Hex: v6Req(xid, refreshMac(i), true, 77), RxIf: fakeIf, Peer: "2001:db8:ffff::99", Port: 546}
@@ -774,6 +811,9 @@ func runFileDual(ctx *fw.Ctx, c *fileCase) {
 		if nv > 19 {
 			break
 		}
+		if (v6 && c.Empty == "6") || (!v6 && c.Empty == "4") {
+			continue // the empty file stays as it is
+		}
 		bad := ""
 		if strings.HasPrefix(st, "bad") {
 			bad = "wrong-family"
@@ -788,6 +828,9 @@ func runFileDual(ctx *fw.Ctx, c *fileCase) {
 	}
 	out := RunChain(j, ctx.Scratch, 5*time.Minute)
 	desc := fmt.Sprintf("dual-stack file plugin auto4=%v auto6=%v macs=%d steps=%v", c.Auto4, c.Auto6, c.Macs, c.Steps)
+	if c.Empty != "" {
+		desc += fmt.Sprintf(" (the DHCPv%s lease file lists nobody)", c.Empty)
+	}
 	ctx.Eval("C10", int64(len(c.Steps)+1))
 	if out.SetupErr != "" {
 		ctx.Viol("C10", "wellformed-file-rejected", "%s: setup failed: %s", desc, out.SetupErr)
@@ -800,7 +843,9 @@ func runFileDual(ctx *fw.Ctx, c *fileCase) {
 		if out.DiedAt >= 0 && out.DiedAt < len(exps) {
 			where = fmt.Sprintf(" (request: v6=%v MAC #%d after step %q)", exps[out.DiedAt].v6, exps[out.DiedAt].mac, exps[out.DiedAt].afterStep)
 		}
-		ctx.Viol("C10", "dual-stack:crash", "%s: the server process died%s: %s", desc, where, panicLine(out.Stderr))
+		for _, pr := range []string{"C10", "C19"} {
+			ctx.Viol(pr, "dual-stack:crash", "%s: the server process died%s: %s", desc, where, panicLine(out.Stderr))
+		}
 		return
 	}
 	for i, r := range out.Res {
@@ -809,6 +854,24 @@ func runFileDual(ctx *fw.Ctx, c *fileCase) {
 		}
 		e := exps[i]
 		ctx.Count("file.dual.requests", 1)
+		if e.empty {
+			ctx.Count("file.dual.requests_to_instance_without_leases", 1)
+			for _, cp := range r.Caps {
+				b, _ := hex.DecodeString(cp.Hex)
+				got := ""
+				if e.v6 {
+					if m, n, err := ianaAddrs(b); err == nil && n > 0 {
+						got = fmt.Sprint(m)
+					}
+				} else if rr, err := pkt.Parse4(b); err == nil && rr.Yi != [4]byte{} {
+					got = net.IP(rr.Yi[:]).String()
+				}
+				if got != "" {
+					ctx.Viol("C10", "dual-stack:serves-other-instance-table", "%s: after step %q MAC #%d asked the DHCPv%s instance, whose file lists nobody, and was given %s", desc, e.afterStep, e.mac, map[bool]string{false: "4", true: "6"}[e.v6], got)
+				}
+			}
+			continue
+		}
 		if !r.Matched {
 			var seen []string
 			for _, p := range r.PollSeq {
@@ -827,5 +890,115 @@ func runFileDual(ctx *fw.Ctx, c *fileCase) {
 	}
 	if ctx.WantSample("C10") {
 		ctx.Sample("C10", map[string]any{"kind": "dual", "auto4": c.Auto4, "auto6": c.Auto6, "steps": c.Steps})
+	}
+}
+
+// ---------------------------------------------------------------- two instances under one protocol
+
+// runFileTwin: the plugin listed twice under one protocol, file A for the first half of the clients and file
+// B for the second half, both refreshing. Each instance serves exactly its own file: an update (or a refused
+// update) of one file never changes what the other instance's clients get.
+func runFileTwin(ctx *fw.Ctx, c *fileCase) {
+	v6 := c.V6
+	k := c.Macs / 2
+	file := func(lo, hi, ver int, bad string) string {
+		var sb strings.Builder
+		for i := lo; i < hi; i++ {
+			fmt.Fprintf(&sb, "%s %s\n", net.HardwareAddr(refreshMac(i)), versionAddr(v6, ver, i))
+		}
+		if bad != "" {
+			sb.WriteString(badLine(nil, bad, v6) + "\n")
+		}
+		sb.WriteString("#" + strings.Repeat("p", fileLen-sb.Len()-2) + "\n")
+		return sb.String()
+	}
+	chain := []PlugConf{{"file", []string{"{DIR}/a.txt", "autorefresh"}}, {"file", []string{"{DIR}/b.txt", "autorefresh"}}}
+	j := &ChainJob{HasV4: !v6, HasV6: v6, Files: map[string]string{"a.txt": file(0, k, 11, ""), "b.txt": file(k, c.Macs, 11, "")}}
+	if v6 {
+		j.V6 = chain
+	} else {
+		j.V4 = chain
+	}
+	type exp struct {
+		mac, ver int
+		after    string
+	}
+	var exps []exp
+	xid := uint32(0)
+	ver := map[string]int{"A": 11, "B": 11}
+	ask := func(after string) {
+		for i := 0; i < c.Macs; i++ {
+			xid++
+			which := "A"
+			if i >= k {
+				which = "B"
+			}
+			r := ChainReq{Hex: v4Req(xid, refreshMac(i)), RxIf: fakeIf, Peer: "10.9.9.9", Port: 67}
+			if v6 {
+				r = ChainReq{V6: true, Hex: v6Req(xid, refreshMac(i), true, 77), RxIf: fakeIf, Peer: "2001:db8:ffff::99", Port: 546}
+			}
+			r.Poll = &PollSpec{Until: hex.EncodeToString(versionAddr(v6, ver[which], i)), MaxPolls: 200, IntervalMs: 50}
+			j.Reqs = append(j.Reqs, r)
+			exps = append(exps, exp{mac: i, ver: ver[which], after: after})
+		}
+	}
+	ask("setup")
+	for _, st := range c.Steps {
+		which := st[len(st)-1:]
+		nv := ver[which] + 1
+		if nv > 19 {
+			break
+		}
+		name, lo, hi := "a.txt", 0, k
+		if which == "B" {
+			name, lo, hi = "b.txt", k, c.Macs
+		}
+		bad := ""
+		if strings.HasPrefix(st, "bad") {
+			bad = "wrong-family"
+		}
+		j.Reqs = append(j.Reqs, ChainReq{Write: &FileWrite{Name: name, Content: file(lo, hi, nv, bad)}, SleepMs: 30})
+		exps = append(exps, exp{mac: -1})
+		if bad == "" {
+			ver[which] = nv
+		}
+		ask(st)
+	}
+	out := RunChain(j, ctx.Scratch, 5*time.Minute)
+	desc := fmt.Sprintf("two file instances under DHCPv%s (a.txt: MAC #0..#%d, b.txt: MAC #%d..#%d) steps=%v", map[bool]string{false: "4", true: "6"}[v6], k-1, k, c.Macs-1, c.Steps)
+	ctx.Eval("C10", int64(len(c.Steps)+1))
+	if out.SetupErr != "" {
+		ctx.Viol("C10", "wellformed-file-rejected", "%s: setup failed: %s", desc, out.SetupErr)
+		return
+	}
+	ctx.Nontrivial("C10", "twin/"+desc)
+	ctx.Count("file.twin.cases", 1)
+	if out.Died {
+		for _, pr := range []string{"C10", "C19"} {
+			ctx.Viol(pr, "twin:crash", "%s: the server process died: %s", desc, panicLine(out.Stderr))
+		}
+		return
+	}
+	for i, r := range out.Res {
+		if i >= len(exps) || exps[i].mac < 0 {
+			continue
+		}
+		e := exps[i]
+		ctx.Count("file.twin.requests", 1)
+		if !r.Matched {
+			var seen []string
+			for _, p := range r.PollSeq {
+				b, _ := hex.DecodeString(p)
+				if v6 {
+					m, _, _ := ianaAddrs(b)
+					seen = append(seen, fmt.Sprint(m))
+				} else if rr, err := pkt.Parse4(b); err == nil {
+					seen = append(seen, net.IP(rr.Yi[:]).String())
+				} else {
+					seen = append(seen, "no reply")
+				}
+			}
+			ctx.Viol("C10", "twin:instance-does-not-serve-its-own-file", "%s: after step %q MAC #%d must get %s (version %d of its instance's file); it got %v", desc, e.after, e.mac, versionAddr(v6, e.ver, e.mac), e.ver, seen)
+		}
 	}
 }
